@@ -26,7 +26,8 @@ func TestVerifReplay(t *testing.T) {
 		t.Fatal(err)
 	}
 	custom := NewSFFunction(CharRecipe{Length: 12, Allow: Lowers, Require: Digits | Uppers, RequireSets: []string{"#%&+=", "<>?/"}, Exclude: Ambiguous})
-	customEnt := CharRecipe{Length: 12, Allow: Lowers, Require: Digits | Uppers, RequireSets: []string{"#%&+=", "<>?/"}, Exclude: Ambiguous}.Entropy()
+	customRecipe := CharRecipe{Length: 12, Allow: Lowers, Require: Digits | Uppers, RequireSets: []string{"#%&+=", "<>?/"}, Exclude: Ambiguous}
+	customEnt := customRecipe.Entropy()
 	cr := CharRecipe{Length: 40, Allow: Letters, Require: Digits | Symbols, Exclude: Ambiguous, RequireSets: []string{"éü", "xyz"}}
 	crEnt := cr.Entropy()
 	crAlpha := cr.Alphabet()
